@@ -48,7 +48,13 @@ META = {
                   'configured_scaled_described (a scaled limit set by the configuration on the grid: the integer the report states denotes exactly that limit, whichever side of the whole number the float '
                   'quotient limit/scale lands on, and client = node on every payload), described_datainfo_equiv_derived + model_change_probe_ok_derived (node level, no oracle assumption), '
                   'derived_datainfo_equiv_statement (every well-formed tree, no condition) stays a statement: missing are GridStable for the carrier and finiteness of the limits\' grid values.  '
-                  'Tied to secnode.py / params.py / modulebase.py / properties.py / dispatcher.py / datatypes.py by correspondence runs (model report = real report, the module property lists DERIVED from '
+                  'create_modules_registers (Node/CreateModules models get_module_instance / add_module / get_module with the recursive resolution of Attached properties / the loop of create_modules with Pinatas: '
+                  'for EVERY configuration - any declaration order, attachments, scans - the list the report is made from is exactly the created module objects with export=True, in their order of creation; a module created before its own turn is registered like any other), '
+                  'create_modules_once, describe_follows_registration / report_lists_created_exported (the modules of the report = the created objects with the flag set), '
+                  'retype_reported / retype_dispatched / retype_other_stable / retype_other_module / retype_same_modules (Node/Retype: module code gives a LIVE parameter a new datatype - the entry of that parameter states the new datainfo, the dispatcher validates with it, every other entry, the module list and the module properties are unchanged), '
+                  'stableExceptB_sound, live_scaled_described (configured_scaled_described for a limit set at run time by datatype.set_properties).  '
+                  'Tied to secnode.py / params.py / modulebase.py / properties.py / dispatcher.py / datatypes.py by correspondence runs (create_modules: configuration order + attached names + Pinata scans -> SecNode.modules / SecNode.export DERIVED by the model; '
+                  'later phases of a node whose modules changed datatypes of live parameters: the node DERIVED from the previous phase by setDt, the live datatype DERIVED from class + configuration + run-time limits; model report = real report, the module property lists DERIVED from '
                   'class + configuration; model step = real step for every request of the sweep; datatype stream: instance datatype DERIVED from class datatype + configured limits, described datainfo DERIVED from the '
                   'instance datatype, verdicts of node datatype and rebuilt client datatype on the boundary catalogue DERIVED by the model) and report-vs-behaviour monitors on generated nodes and on the shipped configurations '
                   '(boundary catalogue of every described datainfo sent as change requests and judged against the client datatype rebuilt from the report).',
@@ -67,6 +73,10 @@ META = {
         'shipped configurations: driver calls are not observed there (only replies and subscriptions); they are probed only after the generated nodes showed no violation',
     ],
     'modelled_not_verified': [
+        'create_modules: errors (unknown attached name, cyclic dependency) are only counted by the model, the correspondence is run on nodes frappy builds without errors; '
+        'io modules auto-created by HasIO (add_module inside a constructor) are not modelled - on the shipped configurations only the registration monitor runs',
+        'live datatype changes: only set_properties(min / max / unit) on numeric top-level datatypes is generated; replacing the datatype object of a live parameter is not; '
+        'no theorem that every configured module is created when the model counts no error',
         'configuration keys of a datatype other than min / max (unit, fmtstr, resolutions, lengths): generated and judged by the monitors, but they reach the model through the tree read from the real object',
         'datatype stream: LimitsType / StatusType / TextType parameters are left out (not one of the ten kinds of the datatype model)',
         'the MRO itself (Python C3 linearisation) and the qualified class name are data from the real class',
@@ -1311,7 +1321,9 @@ def evaluate(ctx, res, label, case, data, model, judge, dtmodel=None, crt=None):
 
 def run(ctx):
     res = Result()
-    res.rule = ('one evaluation = one node (generated classes + configuration incl. entries for module properties - also the automatic ones - '
+    res.rule = ('one evaluation = one PHASE of one node; a quarter of the nodes have modules attached to each other and Pinatas, declared in random order (create_modules correspondence + registration monitor); '
+                'flat nodes get 0-2 rounds of live datatype changes (set_properties of limits / unit on live parameters), each followed by a new phase judged against the NEW report; '
+                'a node = (generated classes + configuration incl. entries for module properties - also the automatic ones - '
                 'and for constant / datatype properties of parameters: limits of int / double / scaled - scaled limits on the grid by quotient class and off the grid -, '
                 'lengths, unit, resolution): describe twice around a sweep of change/read/do/activate requests over every '
                 'described and every undescribed name (attribute names, underscore variants, old names of renamed '
